@@ -184,12 +184,21 @@ def main():
             for f, b0, a in zip(files, orig_body, absf):
                 b1 = body(f)
                 disk.append("orig" if b1 == b0 else ("fixed" if b1 == a["fixed"] else "other"))
+            # --fix_only listing every rule with "all" is a plain --fix: the text each file ends with is the text of its solo plain fix
+            foSame = []
+            if sc.get("fix_only") is not None and sc.get("kind") == "fix_only-all":
+                plain = dict(sc)
+                plain.pop("fix_only")
+                for f, nm in zip(files, names):
+                    solo_result(nm, True, bad=False, percfg=False, sc=plain)
+                    pk = (nm, True, False, False, json.dumps([plain.get("main_rule"), (plain.get("perfile") or {}).get(nm), None], sort_keys=True))
+                    foSame.append(body(f) == solo_abs[pk]["fixed"])
             out = [idx.get(os.path.basename(m), 0) for m in re.findall(r"^File:  (.*)$", r["stdout"], re.M)]
             err = [idx.get(os.path.basename(m), 0) for m in re.findall(r"^Error while processing (.*?): ", r["stderr"], re.M)]
             mrecs.append({"id": nid + 1, "jobs": sc["p"], "fix": bool(sc["fix"]), "files": [{"cls": a["cls"], "err": a["err"], "dirty": a["dirty"]} for a in absf],
                           "procs": procs, "out": out, "err": err, "exit": 1 if r["rc"] else 0,
                           "junit": [idx.get(x, 0) for x in (r["arte"]["junit"] or [])], "json": [idx.get(x, 0) for x in (r["arte"]["json"] or [])],
-                          "disk": disk, "names": names, "bad": bad or [], "percfg": bad is not None, "kind": sc.get("kind", ""), "traceback": tb, "stderr_tail": r["stderr"][-300:]})
+                          "disk": disk, "foSame": foSame, "names": names, "bad": bad or [], "percfg": bad is not None, "kind": sc.get("kind", ""), "traceback": tb, "stderr_tail": r["stderr"][-300:]})
         nid += 1
         tasks = [{"pid": t["pid"], "seq": t["seq"], "index": t["index"], "file": t["file"], "leakBefore": t["leakBefore"], "leakAfter": t["leakAfter"], "result": t["result"], "status": t["status"]}
                  for t in r["tasks"]]
